@@ -298,6 +298,9 @@ def run(ctx):
     ctx.exhaustive = True
     ctx.assume("toy language model whose hidden state is the sequence of symbols consumed (LMWrapper interface); optical evidence of "
                "decoded lines exactly tied between two letters so that the LM alone decides",
+               "behind the real LMWrapper (every other page content) the toy LM is a torch module WITH dropout layers (recurrent part "
+               "and output layer), handed over in training mode as construct_lm hands over a loaded LSTM LM: identical to the plain "
+               "context LM once the wrapper has put it into evaluation mode, RNG-dependent scores otherwise",
                "confident-line skipping: one threshold (0.9) separating lines with all frames >= 0.98 from lines with a 0.45 frame",
                "the layout / cropping / OCR stages are replaced by a stub (RNG-based tie-breakers of layout stages are outside the anchors)",
                "transcriptions are never empty (an empty last_line is not re-primed from)")
